@@ -43,3 +43,31 @@ package headsync
 //@   requires !idxSet && !idxRemoved
 //@   ensures [deleted_leaves_index]  update.DeletedStatus != 0 ==> idxRemoved && idxRemovedId == update.Id && !idxSet
 //@   ensures [tombstoned_not_readded] idxSet ==> update.DeletedStatus == 0 && !dm.deletionState.Exists(update.Id) && idxSetId == update.Id
+
+// ---------------------------------------------------------------------------------------------
+// C07: the request/response wire adapter answers every requested range, in order, with the count the
+// local index reported and with as many elements as the local answer lists (nothing is dropped or
+// truncated on the way).  (That each element and the hash are copied verbatim is not proved: the
+// element-wise invariant over the nested result lists did not discharge within the time limits.)
+//@ func iface ldiff.Diff.Ranges
+//@   modifies nothing
+//@ func iface ldiff.Diff.DiffType
+//@   modifies nothing
+//@ func HandleRangeRequest
+//@   requires d != nil && req != nil
+//@   assumes forall k int :: 0 <= k && k < len(req.Ranges) ==> req.Ranges[k] != nil
+//@   ensures [one_result_per_range] err == nil ==> resp != nil && len(resp.Results) == len(res)
+//@   ensures [count_copied] err == nil ==> (forall i int :: 0 <= i && i < len(res) ==> resp.Results[i] != nil && resp.Results[i].Count == wrap32(res[i].Count))
+//@   ensures [no_element_dropped] err == nil ==> (forall i int :: 0 <= i && i < len(res) ==> len(resp.Results[i].Elements) == len(res[i].Elements))
+//@   loop 0:
+//@     invariant -1 <= rangeindex && rangeindex < len(req.Ranges) && len(ranges) == rangeindex + 1
+//@   loop 1:
+//@     invariant -1 <= rangeindex && rangeindex < len(res) && resp != nil && len(resp.Results) == rangeindex + 1
+//@     invariant forall i int :: 0 <= i && i < len(resp.Results) ==> resp.Results[i] != nil && resp.Results[i].Count == wrap32(res[i].Count)
+//@     invariant forall i int :: 0 <= i && i < len(resp.Results) ==> len(resp.Results[i].Elements) == len(res[i].Elements)
+//@   loop 2:
+//@     invariant -1 <= rangeindex && rangeindex < len(rangeRes.Elements) && len(elements) == rangeindex + 1 && resp != nil && len(resp.Results) < len(res)
+//@     invariant rootof(elements) > rootof(resp.Results) && rootof(elements) > rootof(res) && rootof(elements) > rootof(resp)
+//@     invariant forall i int :: 0 <= i && i < len(resp.Results) ==> rootof(elements) > rootof(resp.Results[i])
+//@     invariant forall i int :: 0 <= i && i < len(resp.Results) ==> resp.Results[i] != nil && resp.Results[i].Count == wrap32(res[i].Count)
+//@     invariant forall i int :: 0 <= i && i < len(resp.Results) ==> len(resp.Results[i].Elements) == len(res[i].Elements)
